@@ -465,7 +465,7 @@ func (c *Corpus) attribute(out string) {
 		m := designRe.FindStringSubmatch(line)
 		if m != nil && by[m[1]] != nil {
 			d := by[m[1]]
-			if len(d.BuildDiags) < 40 {
+			if len(d.BuildDiags) < 200 {
 				d.BuildDiags = append(d.BuildDiags, line)
 			}
 			continue
@@ -473,6 +473,9 @@ func (c *Corpus) attribute(out string) {
 		if len(c.Unattributed) < 100 {
 			c.Unattributed = append(c.Unattributed, line)
 		}
+	}
+	for _, d := range c.Designs {
+		sort.Strings(d.BuildDiags)
 	}
 }
 
@@ -533,9 +536,21 @@ func culpritMethods(corpusDir string, d *Design) map[string][]string {
 			continue
 		}
 		name := "m" + mm[1]
-		if len(out[name]) < 6 {
-			out[name] = append(out[name], abstractDiag(m[3]))
+		out[name] = append(out[name], abstractDiag(m[3]))
+	}
+	// the compiler's output order depends on package scheduling: keep a canonical selection
+	for k, l := range out {
+		sort.Strings(l)
+		var uniq []string
+		for _, x := range l {
+			if len(uniq) == 0 || uniq[len(uniq)-1] != x {
+				uniq = append(uniq, x)
+			}
 		}
+		if len(uniq) > 6 {
+			uniq = uniq[:6]
+		}
+		out[k] = uniq
 	}
 	return out
 }
